@@ -173,6 +173,10 @@ func execHeadersFirst(f []string) string {
 	for i, b := range blocks {
 		ids[*b.Hash()] = i
 	}
+	if len(f) > 2 && strings.HasPrefix(f[2], "mo=") {
+		// the orphan pool bound the generator read from the tree: a model parameter, unused here
+		f = append(append([]string{}, f[:2]...), f[3:]...)
+	}
 	for _, d := range f[2:] {
 		if len(d) < 2 {
 			return "bad-op"
@@ -198,7 +202,7 @@ func execHeadersFirst(f []string) string {
 		sort.Slice(tips, func(i, j int) bool { return ids[tips[i].BlockHash] < ids[tips[j].BlockHash] })
 		ts := make([]string, len(tips))
 		for i, t := range tips {
-			ts[i] = fmt.Sprintf("%s.%d.%d", idOf(t.BlockHash), t.Status, t.BranchLen)
+			ts[i] = fmt.Sprintf("%s.%d.%d", idOf(t.BlockHash), tipStatus(t.Status), t.BranchLen)
 		}
 		return fmt.Sprintf("%s@%d/%s@%d/f%d/%s", idOf(bh), bhh, idOf(snap.Hash), snap.Height,
 			chain.BestChainHeaderForkHeight(), strings.Join(ts, ","))
@@ -340,8 +344,9 @@ func genHeadersFirst(g *core.Gen) {
 // a stale cached "oldest" pointer (its orphan was accepted meanwhile) evicts nothing.
 func genOrphanPool(g *core.Gen) {
 	r := g.R
+	mo := blockchain.VerifMaxOrphanBlocks() // internal tuning constant: read from the tree, passed as `mo=`
 	for i := 0; i < g.N(4, 40); i++ {
-		k := int(r.Pick(100, 101, 102, 103, 104, 108)) // chain 0..k: blocks k..2 delivered first are k-1 orphans
+		k := mo + int(r.Pick(0, 1, 2, 3, 4, 8)) // chain 0..k: blocks k..2 delivered first are k-1 orphans
 		var ds []string
 		for id := k; id >= 2; id-- {
 			ds = append(ds, fmt.Sprintf("b%d", id))
@@ -350,19 +355,19 @@ func genOrphanPool(g *core.Gen) {
 		for j := 0; j < 4; j++ {
 			ds = append(ds, fmt.Sprintf("b%d", k-j), fmt.Sprintf("h%d", k-j))
 		}
-		g.Case("hf-orphan-pool", true, fmt.Sprintf("C17 hf 0:%d - %s", k, strings.Join(ds, " ")))
+		g.Case("hf-orphan-pool", true, fmt.Sprintf("C17 hf 0:%d - mo=%d %s", k, mo, strings.Join(ds, " ")))
 	}
 	for i := 0; i < g.N(2, 20); i++ {
 		// nodes: 1 (child of 0), 2 (child of 1), chain 3..(2+m) off the root; 3 is never delivered
-		m := int(r.Pick(103, 104, 106))
+		m := mo + int(r.Pick(3, 4, 6))
 		top := 2 + m
 		ds := []string{"b2", fmt.Sprintf("b%d", top), "b1"} // pool [2,top], oldest=2; b1 accepts 1 and 2: pointer stale
-		n := int(r.Pick(98, 99, 100, 101))
+		n := mo + int(r.Pick(-2, -1, 0, 1))
 		for id := top - 1; id > top-1-n && id > 3; id-- {
 			ds = append(ds, fmt.Sprintf("b%d", id))
 		}
 		ds = append(ds, fmt.Sprintf("b%d", top), fmt.Sprintf("b%d", top-1), fmt.Sprintf("b%d", top-2), "b3", fmt.Sprintf("b%d", top))
-		g.Case("hf-orphan-pool-stale", true, fmt.Sprintf("C17 hf 0:1,1:1,0:%d - %s", m, strings.Join(ds, " ")))
+		g.Case("hf-orphan-pool-stale", true, fmt.Sprintf("C17 hf 0:1,1:1,0:%d - mo=%d %s", m, mo, strings.Join(ds, " ")))
 	}
 }
 
